@@ -2,7 +2,12 @@
 (* Step-by-step model of harper_core::remove_overlaps + Vec::remove_indices   *)
 (* (one action per loop turn).  Operators and the property-level definitions  *)
 (* live in OverlapsOps.                                                        *)
+(* CursorOnDropped = TRUE is a deviation seeded changes introduced twice (a sweep    *)
+(* rewritten as one `retain` pass that moves the running end for dropped lints too):  *)
+(* a lint nested in a kept one pulls the end back and a later nested lint is kept.    *)
 EXTENDS OverlapsOps
+
+CONSTANT CursorOnDropped
 
 VARIABLES input, arr, i, cur, rm, pc, out, ri, nextRm
 ovars == <<input, arr, i, cur, rm, pc, out, ri, nextRm>>
@@ -31,7 +36,8 @@ Sort == pc = "start" /\ Len(input) >= 2
 
 SweepDrop == pc = "sweep" /\ i <= Len(arr) /\ arr[i].s < cur
              /\ rm' = Append(rm, i) /\ i' = i + 1
-             /\ UNCHANGED <<input, arr, cur, pc, out, ri, nextRm>>
+             /\ cur' = (IF CursorOnDropped THEN arr[i].e ELSE cur)
+             /\ UNCHANGED <<input, arr, pc, out, ri, nextRm>>
 
 SweepKeep == pc = "sweep" /\ i <= Len(arr) /\ ~(arr[i].s < cur)
              /\ cur' = arr[i].e /\ i' = i + 1
